@@ -12,7 +12,7 @@ from common import HarnessError, VERIF, run_impl_parallel
 
 def run(rep, work, tier, seed, props, replay=None):
     tasks = []
-    for dt, shape, kind, via in itertools.product(["float64", "float32", "float16", "int64", "int8", "uint8", "bool"], [[], [0], [3], [2, 1, 3]],
+    for dt, shape, kind, via in itertools.product(["float64", "float32", "float16", "int64", "int8", "uint8", "bool", ">f8", ">f4", ">i4", "<f8"], [[], [0], [3], [2, 1, 3]],
                                                    ["leaf", "view", "intermediate"], ["str", "path", "bytesio", "handle"]):
         for grad in (True, False):
             for constant in ((None, True, False) if dt.startswith("float") and kind == "leaf" else (None,)):
@@ -39,7 +39,7 @@ def run(rep, work, tier, seed, props, replay=None):
     rep.coverage.update({
         "evaluations": len(tasks),
         "distinct_nontrivial": len(set(json.dumps(t, sort_keys=True) for t in nt)),
-        "rule": "complete product of 7 dtypes x 4 shapes x 3 tensor kinds x 4 transports x gradient presence x constant flag (+ constant copies carrying a gradient); non-trivial = a gradient is present or the dtype is not float64",
+        "rule": "complete product of 11 dtypes (incl. non-native byte orders) x 4 shapes x 3 tensor kinds x 4 transports x gradient presence x constant flag (+ constant copies carrying a gradient); non-trivial = a gradient is present or the dtype is not float64",
         "samples": [tasks[5], tasks[-1]],
         "exhaustive": True,
         "round_trips_with_gradient": sum(1 for r in res if r.get("has_grad")),
